@@ -11,6 +11,7 @@ import ast
 from ..classify import KEYIDX, SAME
 from ..engine import Ctx, Finding, RuleResult, cfg_str, trace_of
 from ..loader import AnalysisError, dotted_name
+from ..model import valuations
 from ..terms import EV, EVKEY, EVSTORE, KINDS, show, subterms
 from .common import (construct_id, decisions_on, emissions, is_grouping,
                      mk_finding, mux_emissions, summary, terminals)
@@ -229,6 +230,21 @@ def rule_mx5(ctx: Ctx) -> RuleResult:
             ok = len(ems) == 1 and ems[0].method == "on_next" and ems[0].eff.arg == EV and ems[0].role == "down"
             r.ob(ok, lambda: mk_finding("MX-5", spec, kind, cfg, p,
                                         "every outer event must be forwarded exactly once, unchanged; on_next_outer does: %s" % summary(p)))
+    # demux only LISTENS to the outer group: the Subject belongs to the operator value and carries the lifecycle events of every
+    # subscription of the pipeline; a terminal call on it (on_completed / on_error / dispose) from demux ends it for all later ones
+    for which in ("on_next", "on_completed", "on_error"):
+        for spec in demux.handler_specs(which):
+            kinds = [k for k in KINDS if k != "Other"] if which == "on_next" else (None,)
+            for kind in kinds:
+                for cfg in valuations(ctx.space(spec)):
+                    for p in ctx.paths(spec, kind, cfg):
+                        r.paths += 1
+                        bad = [e for e in p.trace if e.k in ("emit", "call", "mutate") and e.d.get("method") in ("on_completed", "on_error", "dispose")
+                               and any(x[0] in ("param", "free", "arg") and x[1] == outer_param for x in [e.d.get("target") or e.d.get("base") or ("none",)])]
+                        r.ob(not bad, lambda p=p, bad=bad, spec=spec, kind=kind, cfg=cfg: mk_finding(
+                            "MX-5", spec, kind, cfg, p,
+                            "demux terminates the outer group (%s): the Subject is created once per operator value, so every later subscription of the "
+                            "pipeline loses the creation and completion events of its parent keys" % bad[0].brief(), extra="outer-terminated"))
     # the four sandwiches
     heads = [("rxsci/operators/group_by.py", "group_by", "group_by_mux"),
              ("rxsci/data/roll.py", "roll", "roll_mux"),
@@ -577,6 +593,11 @@ def rule_wc2(ctx: Ctx) -> RuleResult:
             qn = m.scopes[fn].qualname if fn is not None else "<module>"
             table = allowed_err if last == "OnErrorMux" else allowed_life
             ok = any(qn.startswith(pfx) for pfx in table.get(rel, ()))
+            if not ok and last == "OnErrorMux":
+                # OnErrorMux(key=..., error=i.error, store=...): the error is read from an event in hand -- i._replace(key=...) written out,
+                # a copy and not an origination; the per-kind rules (MX-1..4) judge the copy like any emitted event
+                e_arg = node.args[1] if len(node.args) > 1 else next((k.value for k in node.keywords if k.arg == "error"), None)
+                ok = isinstance(e_arg, ast.Attribute) and e_arg.attr == "error" and isinstance(e_arg.value, ast.Name)
             if not ok and fn is not None:
                 # a helper shared by several operators (mux_error(event, e)): every site that reaches it must be
                 # one of the allowed originators
